@@ -301,7 +301,7 @@ func init() {
 			r := newRngMixed(seed)
 			cases := 150
 			if tier == "thorough" {
-				cases = 4000
+				cases = 2000
 			}
 			for c := 0; c < cases; c++ {
 				c20GenCase(w, r)
